@@ -27,6 +27,12 @@ def datasets(rng, N, n_coef):
     base_d = rng.normal(size=(need + 4, N, 3)) * 0.05
     reps = np.concatenate([base_d, base_d[[0, 0, 0, 1, 2, 2]]])
     out.append(("repeated-rows", reps, rng.normal(size=(len(reps), N, 3))))
+    # displacements measured from their mean over the snapshots (MD relative to average positions): every component sums to zero
+    # over the snapshots although the set is not symmetric under u -> -u; and triples {u, -u/2, -u/2}
+    raw = rng.normal(size=(need + 5, N, 3)) * 0.05
+    out.append(("centred", raw - raw.mean(axis=0), rng.normal(size=(need + 5, N, 3))))
+    u_ = rng.normal(size=((need + 5) // 3 + 1, N, 3)) * 0.05
+    out.append(("zero-sum-triples", np.concatenate([u_, -u_ / 2, -u_ / 2]), rng.normal(size=(3 * len(u_), N, 3))))
     # rank deficient: displacements confined to one direction of one atom
     d = np.zeros((need + 3, N, 3))
     d[:, 0, 0] = rng.normal(size=need + 3) * 0.05
@@ -109,6 +115,26 @@ def check(ctx):
                                 ctx.fail("oracle", f"C06/oracle/orthogonality/{kind}", f"{P.sc['name']} orders {orders} data '{kind}' ({d.shape[0]} snapshots, batch_size {bs}): the residual is not orthogonal to a basis force pattern "
                                          f"(cosine {worst_cos:.2e}), i.e. a better admissible fit exists, and no exception was raised",
                                          replay={**P.describe(), "orders": list(orders), "data_kind": kind, "n_snap": int(d.shape[0]), "batch_size": bs, "disps": d.tolist(), "forces": f.tolist(), "cosine": worst_cos}, has_input=True)
+                        # the same numbers held in single precision: the conversion to double is exact, so the fit must be the one of
+                        # the float64 copy (anything else means part of the accumulation ran in single precision, i.e. normal
+                        # equations satisfied to 1e-8 only)
+                        if kind == "over" and bs == 100:
+                            f32 = f.astype(np.float32)
+                            pair = []
+                            for ff in (f32, f32.astype(np.float64)):
+                                o32 = P.new(d, ff)
+                                try:
+                                    solve_with_batch(o32, P, orders, False, bs)
+                                    pair.append({m: np.array(o32.force_constants[m]) for m in orders})
+                                except (np.linalg.LinAlgError, ValueError, RuntimeError, IndexError, ZeroDivisionError, TypeError):
+                                    pair.append(None)
+                            ctx.count("float32-twin")
+                            if pair[0] is not None and pair[1] is not None:
+                                dev = max(float(np.abs(pair[0][m] - pair[1][m]).max() / max(np.abs(pair[1][m]).max(), 1e-300)) for m in orders)
+                                if dev > 1e-11:
+                                    ctx.fail("oracle", "C06/oracle/float32-forces", f"{P.sc['name']} orders {orders}: forces given as float32 are fitted differently from the same numbers given as float64 "
+                                             f"(relative deviation {dev:.2e}); the float64 fit satisfies the normal equations to rounding, so the float32 one does not",
+                                             replay={**P.describe(), "orders": list(orders), "disps": d.tolist(), "forces_float32": f32.astype(float).tolist(), "deviation": dev}, has_input=True)
                         if not rel <= 1e-7:
                             key = f"C06/oracle/normal-eq/{kind}"
                             ctx.fail("oracle", key, f"{P.sc['name']} orders {orders} data '{kind}' ({d.shape[0]} snapshots, {ncoef} coefficients, batch_size {bs}): "
